@@ -25,6 +25,29 @@ def defaulted(text, text2):
     return re.fullmatch(pat, text2) is not None
 
 
+def shape(text):
+    """mnemonic + operand forms with numbers and pointer registers abstracted: MVL___[X++],_(PX+10) -> MVL [R++],(PX+N)"""
+    mn, _, ops = text.partition("_")
+    ops = ops.replace("_", "")
+    ops = re.sub(r"\b[0-9A-F]{2,6}\b", "N", ops)
+    ops = re.sub(r"(?<![A-Z])(X|Y|U|S)(?![A-Z])", "R", ops)
+    return f"{mn} {ops}"
+
+
+def operand_class(text):
+    """the instruction classes the recorded finding names (wide transfers and compares, JP (n), 8-bit MV with a register-indirect
+    external operand, MVL [r3+-n]); anything else is its own class (the exact shape), hence a new signature"""
+    sh = shape(text)
+    mn, _, ops = sh.partition(" ")
+    if mn in ("MVW", "MVP", "CMPW", "CMPP", "JP"):
+        return mn
+    if mn == "MV" and "[" in ops:
+        return "MV_with_external_memory_operand"
+    if mn == "MVL" and ("[R+N]" in ops or "[R-N]" in ops):
+        return "MVL_[r3+-n]"
+    return sh
+
+
 def family(text, text2, f, kind="OK"):
     """root cause, from the shape of the text AND the shape of what came back (so that another way of getting the same
     text wrong is a different signature)"""
@@ -88,7 +111,10 @@ def run(ctx):
             elif f["same_len"] != "1":
                 ctx.count("canonicalised-prefix")      # a prefix without effect dropped, or the default (BP+n) prefix made explicit: same text, same meaning
         if fam:
-            ctx.report(["py", fam], f"{mn} `{text}` (from {l.split()[0]}): {a[:200]}", {"case": "reasm " + l, "answer": a[:400]})
+            sig = ["py", fam]
+            if fam == "addressing_prefix_not_emitted_for_this_operand_class":
+                sig.append(operand_class(text))  # which operand class: the finding is a list of classes, not "any operand"
+            ctx.report(sig, f"{mn} `{text}` (from {l.split()[0]}): {a[:200]}", {"case": "reasm " + l, "answer": a[:400]})
     # addressing mode written in the text vs mode the decoder shows for the emitted bytes
     srcs, meta = [], []
     for tpl in SINGLE:
